@@ -94,15 +94,26 @@ theorem c11_linearizable (vals : List Int) (progs : List (List Call)) (σ : List
 
 /-- `c11_false_justified`: a `Pop` that is about to return false because it observed
 `head == tail` does so at an instant at which the list is empty (nothing can be popped);
-a `Pop` whose head-CAS fails has been overtaken: the head moved since this call loaded it,
-which only a successful `Pop` of another thread, overlapping this call, can do. -/
+a `Pop` whose head-CAS fails has been overtaken: the head moved since this call loaded it
+(`h < s.head`; the local `h` is the head at the call's `popLoadHead` step).  The head index
+equals the number of `pop` linearization events emitted so far (clause 1), so between the
+load and the failing CAS at least one `Pop` linearized; by `c11_history` a call that
+returns false has no linearization event of its own, hence it was a `Pop` of ANOTHER thread
+overlapping this call. -/
 theorem c11_false_justified (vals : List Int) (progs : List (List Call)) (σ : List Nat)
     (i : Nat) (th : Thread) :
     let s := (run .addThenStore (init vals progs) σ).1
-    s.threads[i]? = some th →
+    s.head = (poppedVals (lins (init vals progs) σ)).length ∧
+    (s.threads[i]? = some th →
       (∀ h, th.pc = .popLoadTail h → h = s.tail → stored s = []) ∧
-      (∀ h n, th.pc = .popCAS h n → s.head ≠ h → h < s.head) := by
-  intro s hth
+      (∀ h n, th.pc = .popCAS h n → s.head ≠ h → h < s.head)) := by
+  intro s
+  refine ⟨?_, ?_⟩
+  · have h0 : (init vals progs).head = 0 := rfl
+    have := head_counts_pops (inv_init vals progs) σ
+    rw [h0, Nat.zero_add] at this
+    exact this
+  intro hth
   have hG := ginv_lrun (ginv_init vals progs) σ
   rw [lrun_fst] at hG
   exact ⟨fun h hpc he => ((false_pop_facts hG hth).1 h hpc he).2, (false_pop_facts hG hth).2⟩
